@@ -2098,12 +2098,12 @@ func (tb *Table) filterByDelTsidAndGenNewPart(pw *partWrapper, delTsids *uint64s
 	tmpPartPath := filepath.Join(tb.path, "tmp", partDirName)
 	lock := fileops.FileLockOption(tmpPartPath)
 
-	ps, ph, err := tb.genTempPart(pw, delTsids, tmpPartPath)
+	_, ph, changed, err := tb.genTempPart(pw, delTsids, tmpPartPath)
 	if err != nil {
 		return err
 	}
 
-	if ph.itemsCount == ps.p.ph.itemsCount {
+	if !changed {
 		tb.partsLock.Lock()
 		pw.isDeleteTsids = false
 		tb.partsLock.Unlock()
@@ -2174,7 +2174,42 @@ func (tb *Table) filterByDelTsidAndGenNewPart(pw *partWrapper, delTsids *uint64s
 
 }
 
-func (tb *Table) genTempPart(pw *partWrapper, delTsids *uint64set.Set, tmpPartPath string) (partSearch, partHeader, error) {
+// maxTSIDsPerTagRow is mergeindex.MaxTSIDsPerRow: the number of tsids a merged tag->tsids row holds.
+const maxTSIDsPerTagRow = 64
+
+// tagSeparatorChar terminates the marshaled composite tag key and the marshaled tag value of a
+// tag->tsids row (both are escaped, so the byte does not occur inside them).
+const tagSeparatorChar = 1
+
+// tagRowTSIDsOffset returns the offset of the tsid list of a tag->tsids row, or -1 if the item
+// does not have the shape ns | key | sep | value | sep | tsid+.
+func tagRowTSIDsOffset(item []byte) int {
+	if len(item) == 0 || item[0] != nsPrefixTagToTSIDs {
+		return -1
+	}
+	seps := 0
+	for i := 1; i < len(item); i++ {
+		if item[i] != tagSeparatorChar {
+			continue
+		}
+		seps++
+		if seps == 2 {
+			tail := len(item) - (i + 1)
+			if tail == 0 || tail%MarshaledUint64Len != 0 {
+				return -1
+			}
+			return i + 1
+		}
+	}
+	return -1
+}
+
+// genTempPart writes a copy of the part without the items of the deleted tsids into tmpPartPath.
+// key->tsid and tsid->key items of a deleted tsid are left out. A tag->tsids row lists many
+// tsids: the deleted ones are taken out of it and the row disappears only when none is left
+// (the rows of one tag are re-cut into rows of at most maxTSIDsPerTagRow ascending tsids).
+// changed reports whether anything was removed.
+func (tb *Table) genTempPart(pw *partWrapper, delTsids *uint64set.Set, tmpPartPath string) (partSearch, partHeader, bool, error) {
 	var ps partSearch
 	ps.Init(pw.p)
 	key := ps.p.ph.firstItem
@@ -2185,7 +2220,7 @@ func (tb *Table) genTempPart(pw *partWrapper, delTsids *uint64set.Set, tmpPartPa
 	compressLevel := getCompressLevelForPartItems(ps.p.ph.itemsCount, ps.p.ph.blocksCount)
 	if err := bsw.InitFromFilePart(tmpPartPath, true, compressLevel, tb.lock); err != nil {
 		bsw.MustClose()
-		return ps, partHeader{}, err
+		return ps, partHeader{}, false, err
 	}
 	bsm := bsmPool.Get().(*blockStreamMerger)
 	defer bsmPool.Put(bsm)
@@ -2193,43 +2228,96 @@ func (tb *Table) genTempPart(pw *partWrapper, delTsids *uint64set.Set, tmpPartPa
 	bsr := getBlockStreamReader()
 	defer putBlockStreamReader(bsr)
 	if err := bsr.InitFromFilePart(pw.p.path); err != nil {
-		return ps, partHeader{}, err
+		return ps, partHeader{}, false, err
 	}
 	bsrs := make([]*blockStreamReader, 0, 1)
 	bsrs = append(bsrs, bsr)
 
 	err := bsm.Init(bsrs, tb.prepareBlock)
 	if err != nil {
-		return partSearch{}, partHeader{}, err
+		return partSearch{}, partHeader{}, false, err
 	}
 
 	var ph partHeader
 	var itemsMerged uint64
+	changed := false
+
+	add := func(item []byte) {
+		if bsm.ib.Add(item) {
+			return
+		}
+		// The bsm.ib is full. Flush it to bsw and add the item to the next block.
+		bsm.flushIB(bsw, &ph, &itemsMerged)
+		if !bsm.ib.Add(item) {
+			logger.Panicf("BUG: cannot add an item of %d bytes to an empty block", len(item))
+		}
+	}
+
+	// the pending tag->tsids rows of one tag: their common prefix and the tsids that stay
+	var rowPrefix, rowBuf []byte
+	var rowTSIDs []uint64
+	flushRows := func() {
+		if len(rowTSIDs) > 0 {
+			sort.Slice(rowTSIDs, func(i, j int) bool { return rowTSIDs[i] < rowTSIDs[j] })
+			n := 0
+			for i, tsid := range rowTSIDs {
+				if i > 0 && tsid == rowTSIDs[i-1] {
+					continue
+				}
+				if n%maxTSIDsPerTagRow == 0 {
+					if n > 0 {
+						add(rowBuf)
+					}
+					rowBuf = append(rowBuf[:0], rowPrefix...)
+				}
+				rowBuf = encoding.MarshalUint64(rowBuf, tsid)
+				n++
+			}
+			add(rowBuf)
+		}
+		rowPrefix = rowPrefix[:0]
+		rowTSIDs = rowTSIDs[:0]
+	}
 
 	for {
 		if !ps.NextItem() {
 			break
 		}
+		item := ps.Item
 
-		if isDeleted(delTsids, ps.Item) {
+		if off := tagRowTSIDsOffset(item); off > 0 {
+			if !bytes.Equal(rowPrefix, item[:off]) {
+				flushRows()
+				rowPrefix = append(rowPrefix[:0], item[:off]...)
+			}
+			for tail := item[off:]; len(tail) > 0; tail = tail[MarshaledUint64Len:] {
+				tsid := encoding.UnmarshalUint64(tail)
+				if delTsids.Has(tsid) {
+					changed = true
+					continue
+				}
+				rowTSIDs = append(rowTSIDs, tsid)
+			}
 			continue
 		}
+		flushRows()
 
-		if !bsm.ib.Add(ps.Item) {
-			// The bsm.ib is full. Flush it to bsw and continue.
-			bsm.flushIB(bsw, &ph, &itemsMerged)
+		if isDeleted(delTsids, item) {
+			changed = true
 			continue
 		}
+		add(item)
 	}
+	flushRows()
 
 	bsm.flushIB(bsw, &ph, &itemsMerged)
 	bsw.MustClose()
 
 	if err = ph.WriteMetadata(tmpPartPath, tb.lock); err != nil {
 		fs.MustRemoveAll(tmpPartPath, tb.lock)
-		return partSearch{}, partHeader{}, err
+		return partSearch{}, partHeader{}, false, err
 	}
-	return ps, ph, nil
+	return ps, ph, changed, nil
 }
 
 func isDeleted(delTsids *uint64set.Set, item []byte) bool {
